@@ -39,6 +39,9 @@ def _prof(name: str) -> Prof:
                 'prem': Prof(symbol=1, svar=False, mu=False, metavars=1, subst=True, mv_cfgs=((0, 0, 0, 0), (1, 0, 0, 0))),
                 'prem_nt': Prof(symbol=0, svar=False, mu=False, app=False, metavars=1, notations=(P.bot, P.neg, P._and, P._or)),
                 'prem_and': Prof(symbol=0, svar=False, mu=False, app=False, exists=False, metavars=0, notations=(P._and, P._or)),
+                'prem_ss': Prof(symbol=0, svar=False, mu=False, app=False, exists=False, metavars=2, subst=True),
+                'rawbody': Prof(symbol=0, svar=False, mu=False, exists=False, app=False, metavars=2),
+                'rawval': Prof(symbol=0, svar=False, mu=False, exists=False, app=False, implies=False, metavars=2),
                 'small': Prof(symbol=1, svar=False, mu=False, metavars=1),
                 'val': Prof(symbol=0, metavars=2, mu=False, app=False),
                 'schem': Prof(symbol=0, svar=False, mu=False, metavars=2, subst=True, mv_cfgs=((0, 0, 0, 0), (1, 0, 0, 0))),
@@ -132,6 +135,41 @@ def h_mp(ctx: Any, n: int, m: int, prof: str, interp: str, twin: bool = False) -
             ctx.check(len(stack_after) == 2 and stack_after[1] == res, f'C07.mp.stack[{interp}]', lambda: repr(stack_after))
     else:
         ctx.check(not applicable, f'C07.mp.rejects-applicable[{interp}|{gens.kinds(left)}]', lambda: f'mp({left!r}, {right!r}) raised')
+
+
+def h_mp_raw(ctx: Any, n: int, interp: str, twin: bool = False) -> None:
+    """antecedent and minor premise are partial instantiations of one body"""
+    from frozendict import frozendict
+    from proof_generation import pattern as P
+    from proof_generation.proved import Proved
+
+    body = gens.gen(ctx, n, _prof('rawbody'))
+    orders = gens.delta_orders(2)
+    d1 = {k: gens.gen_upto(ctx, 1, _prof('rawval')) for k in orders[ctx.choose(len(orders), 'k1')]}
+    d2 = {k: gens.gen_upto(ctx, 1, _prof('rawval')) for k in orders[ctx.choose(len(orders), 'k2')]}
+    q = P.EVar(ctx.int('q'))
+    left = P.Implies(P.Instantiate(body, frozendict(d1)), q)
+    right = P.Instantiate(body, frozendict(d2))
+    el, er = O.expand(left), O.expand(right)
+    applicable = O.eq(el[1], er)
+    res: Any = None
+    try:
+        it = _mk(interp if interp != 'thunk' else 'stateful')
+        L, R = Proved(left), Proved(right)
+        it.stack = [_junk(), L, R]
+        res = it.modus_ponens(L, R)
+    except Exception:
+        res = None
+    ctx.count('reached')
+    if applicable:
+        ctx.count('applicable')
+    ctx.sample({'left': repr(left), 'right': repr(right), 'applicable': applicable})
+    if twin:
+        ctx.violation('TWIN')
+    if res is not None:
+        ctx.check(applicable, f'C07.mp.returns-when-inapplicable[{interp}|partial-Instantiate]', lambda: f'mp({left!r}, {right!r}) returned {res!r}')
+    else:
+        ctx.check(not applicable, f'C07.mp.rejects-applicable[{interp}|partial-Instantiate]', lambda: f'mp({left!r}, {right!r}) raised')
 
 
 def h_gen(ctx: Any, n: int, prof: str, interp: str, twin: bool = False) -> None:
@@ -233,6 +271,10 @@ def levels(tier: str) -> list[dict]:
         for n in (5, 7) if q else (5, 7, 9):
             L.append(dict(label=f'gen/{it}/prem_and/n={n}', module=M, fn='h_gen', kwargs=dict(n=n, prof='prem_and', interp=it), budget_s=bud, required=n <= 5, twin=False))
             L.append(dict(label=f'mp/{it}/prem_and/n={n}', module=M, fn='h_mp', kwargs=dict(n=n, m=1, prof='prem_and', interp=it), budget_s=bud, required=n <= 5, twin=False))
+        L.append(dict(label=f'gen/{it}/prem_ss/n=5', module=M, fn='h_gen', kwargs=dict(n=5, prof='prem_ss', interp=it), budget_s=bud, required=True, twin=False))
+        if it != 'thunk':
+            for n in (1, 3):
+                L.append(dict(label=f'mp/{it}/partial-instantiate/body={n}', module=M, fn='h_mp_raw', kwargs=dict(n=n, interp=it), budget_s=bud, required=True, twin=False))
         for pn in ('schem', 'schem_nt'):
             for n in ([1, 2, 3] if q else [1, 2, 3, 4]):
                 L.append(dict(label=f'inst/{it}/{pn}/n={n}', module=M, fn='h_inst', kwargs=dict(n=n, m=1 if q else 2, prof=pn, interp=it), budget_s=bud, required=n <= 3, twin=(n == 2)))
